@@ -231,7 +231,7 @@ func runCpTest(tt *compliance.TestSpec, srv *cpServer, limit time.Duration) stri
 	}()
 	select {
 	case <-done:
-	case <-time.After(limit):
+	case <-time.After(wd(limit)):
 		return "timeout"
 	}
 	stopped := make(chan struct{})
@@ -252,7 +252,7 @@ func runCpTest(tt *compliance.TestSpec, srv *cpServer, limit time.Duration) stri
 	}()
 	select {
 	case <-stopped:
-	case <-time.After(10 * time.Second):
+	case <-time.After(wd(10 * time.Second)):
 		return "stop-timeout"
 	}
 	msg := strings.Join(tb.msgs, " / ")
